@@ -604,6 +604,40 @@ def c06(ctx):
                         pass
                 elif r is not None:
                     triage_wire(ctx, 'C06', lang, it, 'decode-error', r[1][:200], rep)
+        # second pass, a fresh process per protocol: the registry is emptied and restored BETWEEN encodes ("when no algorithm is
+        # registered under that name the caller's value is written unchanged" is about the registry at the time of the encode).
+        # even protocols start with the emptied registry (U 0, then E 0, E 1), odd ones end with it (E 0, U 1, E 0)
+        for n, it in enumerate(items):
+            out = outs.get(it.tag)
+            if out is None or out.build != 'ok' or len(it.msgs) < 2:
+                continue
+            plan = [('U', 0), 0, 1] if n % 2 == 0 else [0, ('U', 1), 0]
+            o2 = B.run(it, plan, [])
+            if o2.crash:
+                continue        # crashes of the first pass are reported above; nothing is concluded from a dead second pass
+            for i in (0, 1):
+                refb, lay, dec, ckin = it.ref[i]
+                cks = [e for e in lay.items if e['fkind'].startswith('cksum:')]
+                try:
+                    refu = refmodel.Encoder(it.proto, registered=()).encode_root(it.msgs[i][1])[0]
+                except refmodel.LenOverflow:
+                    continue
+                tg = o2.toggled.get(i, {})
+                for tag, want, state in (('ENCU', refu, 'registry emptied'), ('ENCG', refb, 'registry restored'), ('ENC', refb, 'after the toggle' if n % 2 else 'after a first encode with the emptied registry')):
+                    got = o2.enc.get(i) if tag == 'ENC' else tg.get(tag)
+                    if got is None:
+                        continue
+                    ctx.evaluated(1, key=(it.tag, lang, i, tag, 'toggle'))
+                    ctx.counters['registry-toggle-encodes'] += 1
+                    rep = {'message': msg_json(it.msgs[i][1]), 'plan': str(plan), 'state': state, 'expected_hex': want.hex(), 'got': got if isinstance(got, str) else str(got)}
+                    if isinstance(got, tuple):
+                        triage_wire(ctx, 'C06', lang, it, 'encode-error', '%s: %s' % (state, got[1][:200]), rep)
+                        continue
+                    gb = bytes.fromhex(got)
+                    for e in cks:
+                        a, b = gb[e['off']:e['off'] + e['len']], want[e['off']:e['off'] + e['len']]
+                        if a != b:
+                            triage_wire(ctx, 'C06', lang, it, 'checksum-field-wrong', '%s (%s): wire bytes %s, expected %s (%s)' % (e['path'], state, a.hex(), b.hex(), e['fkind']), rep)
     it = items[0]
     ctx.sample({'dsl': it.text[:600], 'message': msg_json(it.msgs[0][1]), 'checksum_inputs_expected': [(p, b.hex()) for p, b in it.ref[0][3]], 'reference_hex': it.ref[0][0].hex()})
     from . import probes
